@@ -1180,26 +1180,35 @@ def motion_only(ctx, s, g, nm, ndim):
         meths.append(('det_axis', g.det_axis, (ndim,)))
     else:
         meths.append(('det_axes', g.det_axes, (2, ndim)))
-    shapes = [(3,), (1,), (2, 3)] if not s.get('ssh') else [(3,), (1,)]
+    shapes = [[(3,)] * nm, [(1,)] * nm, [(2, 3)] * nm] if not s.get('ssh') else [[(3,)] * nm, [(1,)] * nm]
+    # sparse meshgrid (outer product) arguments for 2 and 3 motion parameters, also mixed with scalars
+    if nm == 2:
+        shapes += [[(3, 1), (1, 2)], [(3,), ()], [(2, 1, 1), (1, 3)]]
+    if nm == 3:
+        shapes += [[(4, 1, 1), (1, 3, 1), (1, 1, 2)], [(3, 1), (1, 2), ()], [(), (2,), ()],
+                   [(2, 1), (2, 1), (1, 3)]]
     tol = TOL * (1 + scale_of(s, g, s['amax'])) * 4
-    for sh in shapes:
-        m = tuple(rand_array(ctx.rng, s['amin'], s['amax'], sh) for _ in range(nm))
+    for shs in shapes:
+        m = tuple(rand_array(ctx.rng, s['amin'], s['amax'], sh1) for sh1 in shs)
+        sh = tuple(np.broadcast(*[np.empty(x) for x in shs]).shape)
+        if len(set(shs)) > 1:
+            ctx.hit('vector-m/outer-product/{}-angles'.format(nm))
         arg = m if nm > 1 else m[0]
         for name, f, trail in meths:
             desc = {'kind': 'vector-m', 'spec': jsonable_spec(s), 'method': name,
                     'm': [np.asarray(x).tolist() for x in m]}
-            ctx.case((cls, 'vector-m', name, sh))
+            ctx.case((cls, 'vector-m', name, tuple(shs)))
             ctx.hit('vector-m/' + name)
             st, val = guarded(lambda: np.asarray(f(arg), dtype=float))
             key = 'vectorised {} {} det={}'.format(name, cls, s.get('det', 'flat'))
             if st != 'ok':
-                ctx.violation(key + ' raises', '{}(angles of shape {}) -> {}'.format(name, sh, st), desc)
+                ctx.violation(key + ' raises', '{}(angles of shapes {}) -> {}'.format(name, shs, st), desc)
                 continue
             if val.shape != sh + trail:
-                ctx.violation(key + ' shape', '{}(angles of shape {}) has shape {} expected {}'.format(
-                    name, sh, val.shape, sh + trail), desc)
+                ctx.violation(key + ' shape', '{}(angles of shapes {}) has shape {} expected {}'.format(
+                    name, shs, val.shape, sh + trail), desc)
                 continue
-            flat = [np.asarray(x).ravel() for x in m]
+            flat = [np.asarray(x, dtype=float).ravel() for x in np.broadcast_arrays(*m)]
             out = val.reshape((-1,) + trail)
             for i in range(out.shape[0]):
                 a = tuple(float(x[i]) for x in flat) if nm > 1 else float(flat[0][i])
@@ -1230,6 +1239,14 @@ def run_vector(ctx, specs):
             combos += [([(3,)] * nm, [(3,), ()]), ([(3,)] * nm, [(), (3,)]),
                        ([(3, 1)] * nm, [(3, 1), (1, 2)]), ([()] * nm, [(3,), (1,)]),
                        ([(2, 1)] * nm, [(1, 3), (2, 3)])]
+        if nm == 3:
+            combos += [([(4, 1, 1), (1, 3, 1), (1, 1, 2)], [(1, 1, 1)] * nd),
+                       ([(2, 1, 1, 1), (1, 3, 1, 1), (1, 1, 2, 1)], [(1, 1, 1, 2)] * nd),
+                       ([(2, 1, 1), (1, 3, 1), (1, 1, 2)], [()] * nd)]
+        if nm == 2:
+            combos += [([(2, 1, 1, 1), (1, 3, 1, 1)], [(1, 1, 2, 1), (1, 1, 1, 2)]),
+                       ([(3, 1), (1, 2)], [()] * nd), ([(3, 1), (1, 2)], [(1, 1)] * nd)]
+        outer = [c for c in combos if len(set(c[0])) > 1]
         if nm > 1:
             combos += [([(3, 1), (1, 2)] + [()] * (nm - 2), [(3, 2)] * nd),
                        ([(3,), ()] + [(3,)] * (nm - 2), [(3,)] * nd)]
@@ -1237,7 +1254,7 @@ def run_vector(ctx, specs):
             combos = [c for c in combos if all(len(x) <= 1 for x in c[0])]
         if ctx.quick:
             rng.shuffle(combos)
-            combos = combos[:12]
+            combos = combos[:12] + [c for c in outer if c not in combos[:12]]
         for mshapes, dshapes in combos:
             m, d = vector_case(rng, s, g, mshapes, dshapes)
             for method in (['pos', 'd2s'] + (['d2sraw'] if cls in ('fan', 'cone') else [])):
@@ -1963,7 +1980,8 @@ MODEL_BRANCHES = (
        'factory/model/helh']
     + ['factory/cone/3d/z-' + z for z in Z_PATTERNS]
     + ['detector/cyl', 'detector/sph', 'detector/circ', 'vector-m/rotation_matrix', 'vector-m/det_refpoint',
-       'vector-m/src_position', 'vector-m/det_axis', 'vector-m/det_axes'])
+       'vector-m/src_position', 'vector-m/det_axis', 'vector-m/det_axes',
+       'vector-m/outer-product/2-angles', 'vector-m/outer-product/3-angles'])
 
 
 def search(ctx, broken):
